@@ -959,9 +959,8 @@ class RegionTranslator:
                         v = self.seq([v], lambda c: 'Some %s' % paren(c[0]), decl)
                     else:
                         raise Refuse('assignment to %s : %r of a %r (line %d)' % (t.id, decl, v.ty, s.lineno))
-                if t.id in env and env[t.id] != v.ty:
-                    raise Refuse('variable %s changes type from %r to %r (line %d); declare it in local_types'
-                                 % (t.id, env[t.id], v.ty, s.lineno))
+                # (rebinding a local with a value of another type is fine: the new let shadows the old one;
+                #  at joins the continuation is translated per environment, see `shared`)
                 if t.id in dict(self.inputs):
                     raise Refuse('assignment to input %s (line %d)' % (t.id, s.lineno))
                 env2 = dict(env)
@@ -1071,14 +1070,24 @@ class RegionTranslator:
                 return self.top(stmts[1:], e2)
         return self.block([s], env, k)
 
-    def emit_proofs(self, sites_name):
+    def emit_proofs(self, sites_name, pre=None):
         """Generated proof script: one lemma per boundary continuation (in definition order, i.e.
         last statement first) and one for the entry point, all by the generic symbolic-execution
-        tactic; the kernel checks them like any other proof."""
+        tactic; the kernel checks them like any other proof.
+        pre = (predicate name, [input names]): a fact about the (immutable) inputs that the code
+        BEFORE the first boundary establishes (e.g. by a guard that alerts otherwise).  Every
+        boundary lemma assumes it, the entry lemma does not: there it has to be proved, from the
+        path condition, at the first boundary (Hint Extern -> c08_pre).  Nothing is trusted: a
+        wrong predicate makes the entry proof or a boundary proof fail."""
         out = []
+        hyp = ''
+        if pre is not None:
+            hyp = '%s %s -> ' % (pre[0], ' '.join(pre[1]))
+            out.append('#[local] Hint Extern 1 (%s %s) => c08_pre : c08gen.\n' % (pre[0], ' '.join('_' for _ in pre[1])))
         for name in self.boundaries + [self.unit]:
-            out.append('Lemma %s_ok : forall %s, crash_in %s (%s %s).' % (
-                name, ' '.join(self.kont_params[name]), sites_name, name, ' '.join(self.kont_params[name])))
+            h = hyp if name != self.unit else ''
+            out.append('Lemma %s_ok : forall %s, %scrash_in %s (%s %s).' % (
+                name, ' '.join(self.kont_params[name]), h, sites_name, name, ' '.join(self.kont_params[name])))
             out.append('Proof. intros. unfold %s. c08_symex. Qed.' % name)
             out.append('#[local] Hint Resolve %s_ok : c08gen.\n' % name)
         return '\n'.join(out)
